@@ -198,7 +198,8 @@ def _run(ctx, w, embedded=False):
         hit = sorted({M.path_str(p) for p in W if p[0] == "arg1" and len(p) >= 2 and p[1] in (sc, psc)})
         if v in writers_ok:
             if v == "Xtwinops":
-                pos_only = all(p.endswith("cursor_col") or p.endswith("cursor_row") for p in hit)
+                pos_fields = {f for f, src_ in live_of.items() if src_ and tuple(src_[:2]) == ("arg1", cur)}
+                pos_only = all(p.rsplit(".", 1)[-1] in pos_fields for p in hit)
                 ctx.check(pos_only, "S4", v, "XTWINOPS may only clamp the saved position, it writes %s" % hit, loc=w.fn_loc(w.handler(v)[0]))
             else:
                 ctx.ok("S4", v, {"function": v, "writes_saved_ctx": hit[:3]})
